@@ -1577,6 +1577,7 @@ pub fn check(case: &Case, out: &mut CaseOut) {
 
 pub fn property() -> Property {
     Property {
+        fuzz: vec![],
         id: "C09",
         rule: "case = request (INVITE or one of 9 other methods, never ACK; 1..5 Via values with transport token, sent-by IPv4/IPv6-reference/host name with or without port, parameters maddr (IPv4, IPv6 reference, host name) / rport (empty, with value) / received / ttl / branch / extension parameters (no value, token, quoted-string) in shuffled order, optional white space, one-per-line or comma-list layout, compact names; From/To with token or quoted display names, addr-spec or name-addr form, tag and extra parameters; Call-ID, CSeq, optional Timestamp, optional body) x packet source (IPv4/IPv6, equal to or different from the sent-by host, any port) x transport (datagram mock, inbound/outbound TCP and TLS mock connections) x 1..3 responses (provisionals then any code of 100..=699, with or without caller-supplied reason) produced by Endpoint::create_response and sent through the server transaction. Non-trivial = at least 2 Via values, or maddr/rport/received in the top Via, or sent-by host != packet source, or a connection transport; distinct by hash of the case.",
         assumptions: vec![
